@@ -514,7 +514,10 @@ func (vr *variableResolver) resolve(ctx *ExecutionContext) (*Value, error) {
 			}
 
 			// Call it and get first return parameter back
-			values := current.Call(parameters)
+			values, err := safeCall(current, parameters)
+			if err != nil {
+				return nil, fmt.Errorf("error calling '%s': %w", vr.String(), err)
+			}
 			rv := values[0]
 			if t.NumOut() == 2 {
 				e := values[1].Interface()
@@ -548,6 +551,23 @@ func (vr *variableResolver) resolve(ctx *ExecutionContext) (*Value, error) {
 	}
 
 	return &Value{val: current, safe: isSafe}, nil
+}
+
+// safeCall calls fn and turns a panic of the called code into an error (as
+// text/template does): a context function that fails, or a method promoted through
+// a nil embedded pointer (which Go can only reach by dereferencing it), ends the
+// execution with an error instead of taking the whole process down.
+func safeCall(fn reflect.Value, args []reflect.Value) (values []reflect.Value, err error) {
+	defer func() {
+		if r := recover(); r != nil {
+			if e, ok := r.(error); ok {
+				err = e
+			} else {
+				err = fmt.Errorf("%v", r)
+			}
+		}
+	}()
+	return fn.Call(args), nil
 }
 
 func (vr *variableResolver) Evaluate(ctx *ExecutionContext) (*Value, *Error) {
